@@ -51,6 +51,8 @@ pub fn replay(args: &Args) {
         let vo: Vec<Option<f64>> = enc_vec(&s);
         let voi: Vec<Option<i32>> = enc_vec(&s);
         let sp = Spy::new(1, vf.clone());
+        // the same series with its nulls written as a NaN whose sign bit is set: the same null
+        let vn: Vec<f64> = enc_vec_negnan(&s);
 
         // ---- quantiles --------------------------------------------------------------
         if want("quant") {
@@ -70,6 +72,9 @@ pub fn replay(args: &Args) {
                     }};
                 }
                 run!("Vec<f64>", vf);
+                if !nullfree {
+                    run!("Vec<f64> (nulls as -NaN)", vn);
+                }
                 run!("Vec<Option<f64>>", vo);
                 run!("Vec<Option<i32>>", voi);
                 clear_log();
@@ -174,6 +179,9 @@ pub fn replay(args: &Args) {
                     }};
                 }
                 run!("Vec<f64>->Vec<f64>", Vec<f64>, f64, vf);
+                if !nullfree {
+                    run!("Vec<f64> (nulls as -NaN)->Vec<f64>", Vec<f64>, f64, vn);
+                }
                 run!("Vec<Option<f64>>->Vec<Option<f64>>", Vec<Option<f64>>, Option<f64>, vo);
                 run!("Vec<Option<i32>>->Vec<f64>", Vec<f64>, f64, voi);
                 clear_log();
@@ -238,6 +246,9 @@ pub fn replay(args: &Args) {
                         }};
                     }
                     runp!("Vec<f64>", vf, |x: f64| if x.is_nan() { NULL } else { x as i64 });
+                    if !nullfree {
+                        runp!("Vec<f64> (nulls as -NaN)", vn, |x: f64| if x.is_nan() { NULL } else { x as i64 });
+                    }
                     runp!("Vec<Option<f64>>", vo, |x: Option<f64>| x.map(|y| y as i64).unwrap_or(NULL));
                     runp!("Vec<Option<i32>>", voi, |x: Option<i32>| x.map(|y| y as i64).unwrap_or(NULL));
                     // element types without a null: every request that needs no padding (k + 1 <= len) must
